@@ -219,6 +219,53 @@ func checkRelSetTyping(p *Prog, r *Report, f *ssa.Function) {
 		n++
 		mi, ok := args[1].(*ssa.MakeInterface)
 		if !ok {
+			// the value may come from a decode helper h(data, rel.ToOne): then h
+			// returns a string on its toOne branch and a []string on the other
+			if ex, isEx := args[1].(*ssa.Extract); isEx && ex.Index == 0 {
+				if hc, isCall := ex.Tuple.(*ssa.Call); isCall {
+					if g := hc.Common().StaticCallee(); g != nil && smallHelper(g) {
+						pi := -1
+						for i, a := range hc.Common().Args {
+							if _, fl, ok := fieldLoad(a); ok && fl == "ToOne" && i < len(g.Params) {
+								pi = i
+							}
+						}
+						good, nret := pi >= 0, 0
+						if pi >= 0 {
+							for _, b := range g.Blocks {
+								ret, ok := b.Instrs[len(b.Instrs)-1].(*ssa.Return)
+								if !ok || len(ret.Results) == 0 {
+									continue
+								}
+								nret++
+								rmi, ok := ret.Results[0].(*ssa.MakeInterface)
+								if !ok {
+									good = false
+									continue
+								}
+								one := 0
+								for _, ef := range expandFacts(factsAt(b)) {
+									if ef.Cond == ssa.Value(g.Params[pi]) {
+										if ef.Truth {
+											one = 1
+										} else {
+											one = -1
+										}
+									}
+								}
+								ts := fmtTypeString(rmi.X.Type())
+								if !((one == 1 && ts == "string") || (one == -1 && ts == "[]string")) {
+									good = false
+								}
+							}
+						}
+						n++ // the helper stands for both branches
+						r.decide(good && nret >= 2, "C05.rel-typing", funcName(f)+":"+p.describe(c), p.pos(c.Pos()), "the decode helper returns a string under toOne and a []string otherwise",
+							"the value comes from a helper that does not return a string on its to-one branch and a []string on the other")
+						return
+					}
+				}
+			}
 			r.bad("C05.rel-typing", funcName(f)+":"+p.describe(c), p.pos(c.Pos()), "relationship value of unknown static type")
 			return
 		}
